@@ -150,6 +150,7 @@ def run(repo, tier):
     r.rule("R9.1", "no iteration / arbitrary pick over a set-typed value unless sorted or order-insensitive", floor=1)
     r.rule("R9.2", "no run-time mutated process-global object flows into expression constructors, reference names or emitted text", floor=2)
     r.rule("R9.3", "no ordering or sort key is computed from id() or hash()", floor=1)
+    r.rule("R9.5", "containers cached in the caller's parameters mapping are keyed context-uniquely (Type.__eq__ compares the context by identity)", floor=2)
     r.rule("R9.4", "memoisation (lru_cache/cache) of a function that dispatches on the type of its argument is typed", floor=2)
 
     files = [f for f in repo.py_files() if in_scope(f)]
@@ -333,6 +334,38 @@ def run(repo, tier):
                         r.ob("R9.3", f"{rel}::{enclosing_function(n)} sort key `{norm_src(kw.value)}`", not bad, "sort key is id()/hash()", loc(rel, n))
     if n93 == 0:
         raise AnalysisError("R9.3 found no ordering site; the `x.key > y.key` anchors vanished")
+
+    # ------------------------------------------------------------------ R9.5 caches inside the caller's parameters mapping
+    # `Context.parameters` is the caller's object (kept when non-empty): containers stored into it outlive the context and are seen
+    # by every later context that is given the same mapping.  They are keyed by expression keys; those bottom out in symbol keys
+    # ("symbol", name, Type), so entries of different contexts stay apart only because types of different contexts never compare
+    # equal.  Rule: as long as such caches exist, Type.__eq__ compares the context by identity (or the cache key carries it).
+    caches = []
+    for rel in ("context.py",):
+        for n in ast.walk(repo.tree(rel)):
+            if isinstance(n, ast.Assign):
+                for t in n.targets:
+                    if isinstance(t, ast.Subscript) and (dotted(t.value) or "").endswith(".parameters") and isinstance(t.slice, ast.Constant) \
+                            and (isinstance(n.value, (ast.Dict, ast.Set, ast.List)) or (isinstance(n.value, ast.Call) and dotted(n.value.func) in ("dict", "set", "list", "collections.defaultdict", "defaultdict"))):
+                        # a container (re)created in __init__ is fresh for every context
+                        if not str(enclosing_function(n)).endswith("__init__"):
+                            caches.append((rel, n, t.slice.value))
+    te = repo.func("typesystem.py", "Type.__eq__")
+    by_identity = any(
+        isinstance(c, ast.Compare) and len(c.ops) == 1 and isinstance(c.ops[0], ast.Is)
+        and {dotted(c.left), dotted(c.comparators[0])} == {f"{te.args.args[0].arg}.context", f"{te.args.args[1].arg}.context"}
+        for c in ast.walk(te)
+    )
+    for rel, n, name in caches:
+        # is the cache key made context-unique by other means?  (a key that mentions the context object or its id)
+        f_ = enclosing_function(n)
+        r.ob("R9.5", f"{rel}::{f_} cache `{name}` kept in the caller's parameters mapping", by_identity,
+             f"`{norm_src(n)}` stores a container in the caller's parameters mapping, which later contexts given the same mapping see; its "
+             "entries are keyed by expression keys, and Type.__eq__ no longer compares the context by identity, so the key of `x: T` in one "
+             "context equals the key of `x: T` in another: same-dtype facts and dtype-index expressions of an earlier trace leak into a later "
+             "one and the emitted text depends on what was generated before", loc(rel, n))
+    if len(caches) < 2:
+        raise AnalysisError(f"R9.5: only {len(caches)} parameter-mapping caches recognised in context.py (expected dtype_index_cache, same_dtype_cache)")
     return r
 
 
